@@ -30,5 +30,11 @@ class KTable:
             #     return np.append(np.histogram(self.wavenumberGrid,wngrid, weights=orig)[0]/np.histogram(self.wavenumberGrid,wngrid)[0],0)
 
             # else:
+            if orig.shape[0] == 1:
+                # The request only touches one end of the table: a single
+                # native point brackets it and interp1d cannot interpolate
+                # on one point (0/0 at that point), every requested point
+                # takes the edge value
+                return np.repeat(orig, wngrid.shape[0], axis=0)
             f = interp1d(self.wavenumberGrid[wngrid_filter], orig, axis=0, copy=False, bounds_error=False,fill_value=(orig[0],orig[-1]),assume_sorted=True)
             return f(wngrid).reshape(-1, len(self.weights))
